@@ -373,6 +373,17 @@ def selftest():
         good = bool(r.violated)
         print("selftest model SpecWrite %s=TRUE -> %s violated: %s" % (flag, ",".join(r.violated) or "nothing", good))
         ok &= good
+    # 1c. every repair of the auto-refresh cache, switched off in the model, must give a counter-example
+    for cfgname, flag, repl in (("CacheAuto_quick.cfg", "FIX_CREATE", []), ("CacheAuto_quick.cfg", "FIX_SCANWATCHED", [("MaxFsOps = 4", "MaxFsOps = 5")]),
+                                ("CacheAuto_away.cfg", "FIX_RENAMEDIR", []), ("CacheAuto_overflow.cfg", "FIX_OVERFLOW", []),
+                                ("CacheAuto_confq.cfg", "FIX_STALE", [("MaxFsOps = 2", "MaxFsOps = 3")]), ("CacheAuto_confshort.cfg", "FIX_RETRY", [])):
+        cfg = open(os.path.join(vlib.SPEC, cfgname)).read().replace("%s = TRUE" % flag, "%s = FALSE" % flag)
+        for a, b in repl:
+            cfg = cfg.replace(a, b)
+        r = run_tlc("CacheAuto", "selftest.cfg", timeout=1800, keep={"selftest.cfg": cfg}, workers=8)
+        good = bool(r.violated)
+        print("selftest model CacheAuto %s=FALSE (%s) -> %s violated: %s" % (flag, cfgname, ",".join(r.violated) or "nothing", good))
+        ok &= good
     # 2. corrupt one expected field of one row: the replay must report it
     g = run_tlc("MCCacheSeq", "CacheSeq_q0.cfg", deadlock=True, timeout=600)
     row = next(r for r in g.rows if r["hist"][0]["view"]["devs"])
